@@ -201,7 +201,7 @@ def run_sim(spec):
                 if f == 'abort' and obs != 'abort':
                     swallowed += 1
                 continue
-            if obs == 'budget':
+            if obs in ('budget', 'deadlock'):
                 mism.append({'client': c.cid, 'op_i': i, 'op': op, 'expected': exp.get(O.op_key(op)), 'observed': obs,
                              'inv': 'I3'})
                 continue
@@ -244,7 +244,7 @@ def run_sim(spec):
         'finishes': sim.finishes, 'first': sim.first,
         'fired': [[c.cid] + f for c in clients for f in c.fired], 'gc_fired': len(sim.gc_fired), 'gcs_at': sim.gc_fired,
         'op_evs': [c.op_evs for c in clients], 'sig': sig, 'swallowed': swallowed,
-        'overlap': sim.overlap_funcs, 'wall': time.time() - t0, 'focus': spec['strategy'].get('fn'), 'focus_hits': sim.focus_hits,
+        'overlap': sim.overlap_funcs, 'wall': time.time() - t0, 'focus': spec['strategy'].get('fn'), 'focus_hits': sim.focus_hits, 'lock_yields': sim.lock_yields,
     }
 
 
